@@ -1202,16 +1202,29 @@ def _endpoint(bits):
                        ["integer", bits.take(20)]])
 
 
+def simple_set(bits):
+    """intervals, finite sets of atoms, named sets: the operands of union / intersection / complement (set algebra on
+    ConditionSet / ImageSet operands is the business of the set properties, not of the printers)"""
+    k = bits.take(8)
+    if k < 2:
+        return pick(bits, [["emptyset"], ["universalset"], ["reals"], ["integers"], ["reals"], ["integers"]])
+    if k < 6:
+        return ["interval", _endpoint(bits), _endpoint(bits), bool(bits.take(2)), bool(bits.take(2))]
+    return ["finiteset", _LIST([c44_leaf(Bits(bits.take(2 ** 30))) for _ in range(1 + bits.take(3))])]
+
+
 def c44_set(plan):
     if not isinstance(plan, list):
         bits = Bits(plan)
         k = bits.take(8)
-        if k < 2:
+        if k < 1:
             return pick(bits, _SETS0)
         if k < 5:
-            return ["interval", _endpoint(bits), _endpoint(bits), bool(bits.take(2)), bool(bits.take(2))]
+            return simple_set(bits)
+        if k < 6:
+            return [pick(bits, ["set_union", "set_intersection"]), _LIST([simple_set(bits), simple_set(bits)])]
         if k < 7:
-            return ["finiteset", _LIST([c44_leaf(Bits(bits.take(2 ** 30))) for _ in range(1 + bits.take(3))])]
+            return ["set_complement", simple_set(bits), simple_set(bits)]
         return ["conditionset", ["symbol", "x"], [pick(bits, _RELS), ["symbol", "x"], c44_leaf(Bits(bits.take(2 ** 30)))]]
     bits = Bits(plan[0])
     kids = plan[1:]
@@ -1221,15 +1234,13 @@ def c44_set(plan):
         if k < 3:
             return ["finiteset", _LIST([c44_arith(kids[0]), ["symbol", "y"]])]
         if k < 5:
-            return ["imageset", ["symbol", "x"], c44_arith(kids[0]), c44_set(bits.take(2 ** 40))]
-        if k < 6:
+            return ["imageset", ["symbol", "x"], c44_arith(kids[0]), simple_set(bits)]
+        if k < 7:
             return ["conditionset", ["symbol", "x"], c44_bool(kids[0])]
-        return ["set_complement", c44_set(kids[0]), c44_set(bits.take(2 ** 40))]
-    if n == 2 and k < 2:
-        return ["set_complement", c44_set(kids[0]), c44_set(kids[1])]
-    if k < 4:
+        return ["set_union", _LIST([["finiteset", _LIST([c44_arith(kids[0])])], simple_set(bits)])]
+    if k < 5:
         return ["finiteset", _LIST([c44_arith(q) for q in kids])]
-    return [pick(bits, ["set_union", "set_intersection"]), _LIST([c44_set(q) for q in kids])]
+    return [pick(bits, ["set_union", "set_intersection"]), _LIST([simple_set(Bits(q if not isinstance(q, list) else q[0])) for q in kids])]
 
 
 def c44_item_from(plan, sel):
